@@ -1,15 +1,60 @@
-/* C04: loop contracts of JSON::escape_string and of the string branch of JSON::parse (placeholders are refined below). */
+/* C04: contract of JSON::escape_string (loop contract + function contract) and the ghost vocabulary of the string lemmas.
+ *
+ * escape_string(s, mode) appends to `ret` (the local result string of the C++ function, an out-parameter here; g_base = its size
+ * on entry) one group per character of s, in order and contiguously:  POS(0) = g_base, the group of s[k] occupies
+ * [POS(k), POS(k+1)), POS(k+1) = POS(k) + C04_ESC_LEN(s[k], mode), its bytes are C04_ESC_BYTE(s[k], mode, 0..), POS(n) = final size.
+ * Stated for one symbolic index g_ek (ghost index idiom): g_p0 = POS(g_ek), g_p1 = POS(g_ek + 1), both recorded by ghost
+ * statements (g_p0 at the start of iteration g_ek, g_p1 at the start of iteration g_ek + 1 resp. behind the loop). */
 #ifndef C04_STRING_H
 #define C04_STRING_H
 #include "stubs/C04_json.h"
+#include "spec/C04_escape.h"
 
-#define C04_ESCAPE_GHOST ((void)0)
-#define C04_ESCAPE_GHOSTS g_c04_dummy
-#define C04_ESCAPE_LOOP_INV(ret, s, i) ((i) <= (s)->size)
+extern size_t g_ek, g_p0, g_p1, g_base;
+extern char g_ech;
+extern int g_c04_dummy;
+
+#ifdef VERIF_SMALL
+#define C04_SMAX 8
+#else
+#define C04_SMAX 0x0FFFFFFFFFFFull
+#endif
+
+/* ghost statements (they assign ghosts only) */
+#define C04_ESCAPE_GHOST do { if (verif_i == g_ek) { g_p0 = ret->size; g_ech = ch; } if (verif_i == g_ek + 1) { g_p1 = ret->size; } } while (0)
+#define C04_ESCAPE_END do { if (vstr_size(s) == g_ek + 1) { g_p1 = ret->size; } } while (0)
+#define C04_ESCAPE_GHOSTS g_p0, g_p1, g_ech
+
+#define C04_GROUP_AT(ret, p, b, mode) \
+  ((ret)->data[p] == C04_ESC_BYTE(b, mode, 0) && \
+   (C04_ESC_LEN(b, mode) < 2 || (ret)->data[(p) + 1] == C04_ESC_BYTE(b, mode, 1)) && \
+   (C04_ESC_LEN(b, mode) < 4 || ((ret)->data[(p) + 2] == C04_ESC_BYTE(b, mode, 2) && (ret)->data[(p) + 3] == C04_ESC_BYTE(b, mode, 3))) && \
+   (C04_ESC_LEN(b, mode) < 6 || ((ret)->data[(p) + 4] == C04_ESC_BYTE(b, mode, 4) && (ret)->data[(p) + 5] == C04_ESC_BYTE(b, mode, 5))))
+
+#define C04_ESCAPE_LOOP_INV(ret, s, i) \
+  ((i) <= (s)->size && g_base + (i) <= (ret)->size && (ret)->size <= g_base + 6 * (i) && \
+   (g_ek < (i) ==> (g_ech == (s)->data[g_ek] && g_base + g_ek <= g_p0 && g_p0 + C04_ESC_LEN(g_ech, mode) <= (ret)->size && C04_GROUP_AT(ret, g_p0, g_ech, mode))) && \
+   (g_ek + 1 == (i) ==> (ret)->size == g_p0 + C04_ESC_LEN(g_ech, mode)) && \
+   (g_ek + 1 < (i) ==> g_p1 == g_p0 + C04_ESC_LEN(g_ech, mode)))
+
+void JSON_escape_string(vstr* ret, const vstr* s, int mode)
+__CPROVER_requires(__CPROVER_is_fresh(s, sizeof(vstr)))
+__CPROVER_requires(s->size <= C04_SMAX && s->size <= s->cap && s->cap <= VSTR_MAXCAP)
+__CPROVER_requires(__CPROVER_is_fresh(s->data, s->cap))
+__CPROVER_requires(__CPROVER_is_fresh(ret, sizeof(vstr)))
+__CPROVER_requires(ret->cap <= VSTR_MAXCAP && ret->size <= 8 && ret->size == g_base && 6 * s->size <= ret->cap - ret->size)
+__CPROVER_requires(__CPROVER_is_fresh(ret->data, ret->cap))
+__CPROVER_requires(mode >= 0 && mode <= 2)
+__CPROVER_ensures(g_base + s->size <= ret->size && ret->size <= g_base + 6 * s->size)
+__CPROVER_ensures(g_ek < s->size ==> (g_ech == s->data[g_ek] && g_base + g_ek <= g_p0 && g_p1 == g_p0 + C04_ESC_LEN(g_ech, mode) && g_p1 <= ret->size))
+__CPROVER_ensures(g_ek < s->size ==> C04_GROUP_AT(ret, g_p0, g_ech, mode))
+__CPROVER_ensures((g_ek == 0 && s->size > 0) ==> g_p0 == g_base)
+__CPROVER_ensures(g_ek + 1 == s->size ==> g_p1 == ret->size)
+__CPROVER_ensures(s->size == 0 ==> ret->size == g_base)
+__CPROVER_assigns(ret->size, __CPROVER_object_whole(ret->data), g_p0, g_p1, g_ech);
+
+/* the string loop of JSON::parse is not put under a loop contract (see props/C04.py: induction step = l_string_step) */
 #define C04_STREAM_GHOSTS g_c04_dummy
 #define C04_STRING_LOOP_INV(r, data) (1 == 1)
 #define C04_STRING_LOOP_VARIANT(r, data) ((r)->length - (r)->offset)
-extern int g_c04_dummy;
-
-void JSON_escape_string(vstr* ret, const vstr* s, int mode);
 #endif
